@@ -31,6 +31,16 @@ class NotObservable(Exception):
     projected; the scenario is counted as not observed (never a violation)"""
 
 
+def find_part(obj, base_cls, preferred):
+    """the storage / imputer of an explainer: by its anchored attribute name, else the unique attribute of that type"""
+    if hasattr(obj, preferred):
+        return getattr(obj, preferred)
+    cands = [v for v in vars(obj).values() if isinstance(v, base_cls)]
+    if len(cands) == 1:
+        return cands[0]
+    raise NotObservable("no attribute %s and no unique %s among the attributes" % (preferred, base_cls.__name__))
+
+
 class ConstructError(Exception):
     """the explainer (or its parts) could not be constructed for a scenario"""
 
@@ -319,7 +329,8 @@ class Projection:
     def storage_rows(self):
         ex = self.env["ex"]
         try:
-            xs, ys = ex._storage.get_data()
+            from ixai.storage.base import BaseStorage
+            xs, ys = find_part(ex, BaseStorage, "_storage").get_data()
             return list(xs), list(ys)
         except Exception:
             return None, None
@@ -348,7 +359,9 @@ def run_scenario(sc, tape_mode="log", script=None, keep_raw=False, provider=None
     keep = []                # keep the dicts alive so ids stay unique
 
     # instance-level wrappers around imputer.impute and storage.update (harness-side instrumentation)
-    imp_obj = ex._imputer
+    from ixai.imputer.base import BaseImputer
+    from ixai.storage.base import BaseStorage
+    imp_obj = find_part(ex, BaseImputer, "_imputer")
     orig_impute = imp_obj.impute
 
     def impute(*a, **k):
@@ -379,7 +392,7 @@ def run_scenario(sc, tape_mode="log", script=None, keep_raw=False, provider=None
         return res
     imp_obj.impute = impute
 
-    st_obj = ex._storage
+    st_obj = find_part(ex, BaseStorage, "_storage")
     orig_update = st_obj.update
 
     def update(*a, **k):
